@@ -283,6 +283,25 @@ pub fn gen(out: &mut crate::gen::Out, rng: &mut Rng, thorough: bool) {
         }
         out.job(move || reuse_line(&a, &b, &ops));
     }
+    // renderer setter histories: the rendering depends on the FINAL options only — repeated image() calls with related
+    // references (the later one wins even when it is the XML-escaped spelling of the earlier), rejected colour calls
+    {
+        use crate::svgops::Op;
+        for k in 0..(if thorough { 600 } else { 60 }) {
+            let vv = rng.below(4);
+            let (inp, o) = crate::gen::small_symbol(rng, &caps, vv);
+            let img = if k % 2 == 0 { crate::svgops::rand_image(rng) } else { format!("https://example.com/logo.png?size={}&v={}", 16 << rng.below(4), rng.below(9)) };
+            let mut ops = vec![Op::Margin(rng.below(6)), Op::Image(img)];
+            if rng.chance(1, 2) {
+                ops.push(Op::ImageSize(crate::svgops::rand_dyadic(rng, 1, 8)));
+            }
+            if rng.chance(1, 2) {
+                ops.push(Op::ModuleColor(crate::svgops::rand_color(rng)));
+            }
+            let ops = crate::svgops::with_noise(rng, &ops);
+            out.job(move || crate::gen::svg_line(&inp, o, &ops));
+        }
+    }
     // batches of near-identical payloads built one after the other
     for _ in 0..(if thorough { 600 } else { 60 }) {
         let mut a = crate::gen::structured(rng);
